@@ -335,7 +335,7 @@ class Executor(object):
 
     def finish(self, st, res, node):
         rt = self.case.returns
-        if rt is not None and not isinstance(rt, NoneT):
+        if rt is not None and isinstance(rt, T) and not isinstance(rt, NoneT):
             res = self.coerce(st, res, rt, node, 'result-type')
         st2 = st.fork()
         c = self.ctx(st2)
@@ -376,6 +376,9 @@ class Executor(object):
             addr, fname = w[1], w[2]
             if addr in st.fresh_objs:
                 continue
+            if self.fn.name == '__init__' and 'self' in self.params0 and self.params0['self'].t == addr \
+                    and not exceptional:
+                continue          # a constructor initialises the fields of the object under construction
             # name the location through the parameter that reaches it
             locname = self.loc_name(addr, fname)
             if locname in allowed:
@@ -1475,6 +1478,7 @@ class Executor(object):
         pre_heap = {a: dict(f) for a, f in st.heap.items()}
         c = Ctx(self, bound, pre_heap, st.heap, case=case)
         c.fp = st.fp
+        c.aux = st.aux
         for f in case.setup(c):
             st.assume(f)
         for (label, f) in case.requires(c):
@@ -1533,6 +1537,7 @@ class Executor(object):
                 st.assume(f)
         c2 = Ctx(self, bound, pre_heap, st.heap, case=case)
         c2.fp = st.fp
+        c2.aux = st.aux
         view = getattr(self.case, 'callee_views', {}).get(qualname)
         for (label, f) in case.ensures(c2, res):
             if view is not None and not any(label.startswith(p) for p in view):
@@ -1542,6 +1547,9 @@ class Executor(object):
             st.assume(x)
         gouts = dict((k[len('_ghost_out_'):], v) for k, v in vars(c2).items() if k.startswith('_ghost_out_'))
         st.aux['last_call'] = dict(qualname=qualname, case=case.name, args=bound, result=res, ghost_outs=gouts)
+        byname = dict(st.aux.get('ghost_outs_by_name', {}))
+        byname.update(gouts)
+        st.aux['ghost_outs_by_name'] = byname
         return res
 
     def match_case(self, st, case, args):
